@@ -401,6 +401,43 @@ func runC19(c *Ctx) {
 				c.NT(n)
 			}
 		}
+		// unknown names with bodies that are not what any known extension carries: nothing after the name, one to three bytes, a
+		// string length that reaches beyond the packet, a lone string - the name alone decides: "operation unsupported", and the
+		// session goes on
+		for i, name := range []string{"x@example.com", "limits@openssh.com", "statvfs@openssh.co", ""} {
+			for j, body := range [][]byte{{}, {0}, {0, 0, 1}, {0, 0, 0, 9, 'a', 'b'}, (&rb{}).str("only-one").b, {0xff, 0xff, 0xff, 0xff}} {
+				if rs == nil {
+					if rs, err = newRawSession(pairOpt{reqServer: reqServer, handlers: nullHandlerSet(), readOnly: readOnly}); err != nil {
+						c.Diag("raw session: %v", err)
+						break
+					}
+				}
+				id := uint32(700 + 10*i + j)
+				resp, err := rs.do(rawExtended(id, name, body))
+				n := c.Case("extreq", kvh("name", []byte(name)), kvb("req", reqServer), kvb("readonly", readOnly), kvh("body", body))
+				code, isStatus := uint32(0), false
+				if err == nil {
+					code, isStatus = resp.statusCode()
+				}
+				unsupported := isStatus && code == 8
+				next, nerr := rs.do(rawPathOp(fxpRealpath, 900, "/"))
+				cont := nerr == nil && next != nil && next.ID == 900
+				if !reqServer && !readOnly {
+					c.Obs(n, kvb("unsupported", unsupported), kvb("cont", cont))
+				}
+				ok, why := true, ""
+				if err != nil || !cont {
+					ok, why = false, fmt.Sprintf("session ended after extended request %q with a %d-byte body", name, len(body))
+					rs.Close()
+					rs = nil
+				} else if !unsupported {
+					ok, why = false, fmt.Sprintf("unknown-extension-not-unsupported: extended request %q with a %d-byte body answered status %d (is status: %v) instead of 8 (req=%v readonly=%v)", name, len(body), code, isStatus, reqServer, readOnly)
+				}
+				c.Oracle(n, ok, why)
+				c.NT(n)
+				c.Stat("unknown_extension_odd_bodies")
+			}
+		}
 		if rs != nil {
 			rs.Close()
 		}
